@@ -64,6 +64,22 @@ FORMULAS = [
          binders="(s rain : α)", ret="Bool", env={"rain": ("rain", N), "rain_threshold": ("s", N)}),
     dict(group="Classify", name="matchIsJump", file="classify.py", func="match_storms", select=("assign", "is_jump", 0),
          binders="(thr inc : α)", ret="Bool", env={"head_increments": ("inc", N), "jump_threshold": ("thr", N)}),
+    # ---- classify.py: index -> epoch conventions of match_all_storms (the statements are inside its loop over pairs)
+    dict(group="Classify", name="stormStartEpoch", file="classify.py", func="match_all_storms", select=("assign", "storm_start_epoch", 0, "nested"),
+         binders="(eFirst : Int)", ret="Int", env={"epoch[rain_start]": ("eFirst", I)}),
+    dict(group="Classify", name="stormThruEpoch", file="classify.py", func="match_all_storms", select=("assign", "storm_thru_epoch", 0, "nested"),
+         binders="(eLast step : Int)", ret="Int", env={"epoch[rain_stop - 1]": ("eLast", I), "time_step_s": ("step", I)}),
+    dict(group="Classify", name="jumpStartEpoch", file="classify.py", func="match_all_storms", select=("assign", "jump_start_epoch", 0, "nested"),
+         binders="(eFirst : Int)", ret="Int", env={"epoch[jump_start]": ("eFirst", I)}),
+    dict(group="Classify", name="jumpThruEpoch", file="classify.py", func="match_all_storms", select=("assign", "jump_thru_epoch", 0, "nested"),
+         binders="(eLast : Int)", ret="Int", env={"epoch[jump_stop - 1]": ("eLast", I)}),
+    # ---- classify.py: the state machine of get_mystery_jump_mask (initial state, one step of the loop)
+    dict(group="Classify", name="mysteryInit", file="classify.py", func="get_mystery_jump_mask", select=("assign", "in_mystery", 0),
+         binders="", ret="Bool", env={}),
+    dict(group="Classify", name="mysteryStep", file="classify.py", func="get_mystery_jump_mask",
+         select=("loopstep", 0, "in_mystery", "mystery_jump_mask"),
+         binders="(st j w : Bool)", ret="Bool", state=("in_mystery", "st", B),
+         env={"is_raining[i]": ("w", B), "is_jump[i]": ("j", B)}),
     # ---- regrid.py: which levels a segment crosses
     dict(group="Regrid", name="scaled", file="regrid.py", func="regrid", select=("assign", "Y", 0),
          binders="(y step : α)", ret="α", env={"y": ("y", N), "y_step": ("step", N)}),
@@ -178,6 +194,22 @@ def select(fn, sel):
         if len(hits) <= sel[1]:
             raise Untranslatable("no `if` #%d" % sel[1])
         return hits[sel[1]].test
+    if kind == "loopstep":
+        loops = [n for n in fn.body if isinstance(n, ast.For)]
+        if len(loops) <= sel[1]:
+            raise Untranslatable("no for loop #%d among the statements of the function body" % sel[1])
+        loop = loops[sel[1]]
+        if loop.orelse or not (isinstance(loop.target, ast.Name) and isinstance(loop.iter, ast.Call)
+                               and ast.unparse(loop.iter.func) == "range" and len(loop.iter.args) == 1
+                               and ast.unparse(loop.iter.args[0]).startswith("len(")):
+            raise Untranslatable("the loop is not `for i in range(len(...))`: %s" % ast.unparse(loop).split("\n")[0])
+        last = loop.body[-1]
+        want = "%s[%s] = %s" % (sel[3], loop.target.id, sel[2])
+        if ast.unparse(last) != want:
+            raise Untranslatable("the loop does not end with `%s` (it ends with `%s`)" % (want, ast.unparse(last).split("\n")[0]))
+        if any(isinstance(n, (ast.Break, ast.Continue)) for st in loop.body for n in ast.walk(st)):
+            raise Untranslatable("break/continue inside the loop")
+        return loop.body[:-1]
     if kind == "callarg":
         hits = [n for n in nodes if isinstance(n, ast.Call) and ast.unparse(n.func) == sel[1]]
         if len(hits) <= sel[2] or len(hits[sel[2]].args) <= sel[3]:
@@ -365,6 +397,8 @@ class Tx:
                 out.append(st.target.id)
             elif isinstance(st, (ast.Expr, ast.Assert)):
                 pass
+            elif isinstance(st, ast.If) and not any(isinstance(n, ast.Return) for n in ast.walk(st)):
+                out += self.assigned(st.body + st.orelse)
             else:
                 raise Untranslatable("statement `%s` inside a branch" % ast.unparse(st).split("\n")[0])
         return sorted(set(out))
@@ -439,7 +473,7 @@ class Tx:
             self.locals = dict(saved)
             other = self.block(st.orelse, v)
             self.locals = dict(saved)
-            self.locals[v] = (self.lname(v), N)
+            self.locals[v] = (self.lname(v), saved[v][1] if v in saved else N)
             body = self.block(rest, tail)
             self.locals = saved
             return "let %s := if %s then %s else %s\n  %s" % (self.lname(v), cond[0], self.inline(then), self.inline(other), body)
@@ -453,9 +487,14 @@ def translate(repo, spec):
     fn = find_function(tree, spec["func"])
     sel = select(fn, spec["select"])
     tx = Tx(spec)
-    if spec["select"][0] != "body":
+    if spec["select"][0] not in ("body", "loopstep"):
         tx.scan(fn)
-    if spec["select"][0] == "body":
+    if spec["select"][0] == "loopstep":
+        py, binder, ty = spec["state"]
+        tx.locals[py] = (binder, ty)
+        term = tx.block(list(sel), py)
+        source = "one pass of the loop of %s on `%s`" % (spec["func"], py)
+    elif spec["select"][0] == "body":
         term = tx.block(list(sel))
         source = "body of %s" % spec["func"]
     else:
